@@ -2,7 +2,7 @@
    Theorems: the loop skeleton (record length, last-entry rule, returned pair) for ALL budgets and
    ALL oracles, and the shape decisions of the wrappers for ALL shapes. *)
 From Coq Require Import ZArith List Bool Lia.
-From PB Require Import lib.Loop lib.LoopProofs C01.Wrapper C01.Proofs.
+From PB Require Import lib.Loop lib.LoopProofs C01.Wrapper C01.Proofs C01.PyLoop C01.PyLoopProofs gen.GenLoops.
 Import ListNotations.
 
 (* the loop is exactly: stop at the first pass that exits early or records a value below tol, else
@@ -43,6 +43,62 @@ Theorem C01_empty_budget : forall (W B D : Type) solve reweight diff below (w0 :
   loop W B D solve reweight diff below 0%nat w0 = None.
 Proof. reflexivity. Qed.
 Print Assumptions C01_empty_budget.
+
+(* ---- the loops as they are written in the source (coq/gen/GenLoops.v is regenerated from /repo by
+   tools/gen_loops.py on every run): range bounds, np.empty size, store index, prefix slice, early-exit
+   block of all 58 single-loop iterative methods satisfy the syntactic conditions ... *)
+Theorem C01_source_loops_checked :
+  forallb (fun p => loop_ok (snd p) && bound_ok (snd p)) loops = true /\ nested_loops = expected_nested.
+Proof. vm_compute. split; reflexivity. Qed.
+Print Assumptions C01_source_loops_checked.
+
+(* ... under which the Python loop (np.empty record, offset stores with NumPy index semantics, clamped
+   prefix slice, `i -= 1` on early exit) IS the skeleton with budget = max_iter + l_stop - l_start: for
+   EVERY max_iter and EVERY oracle, the returned (baseline, weights, tol_history, reason) coincide, no
+   store is out of bounds and no unwritten np.empty entry is returned. *)
+Theorem C01_source_loop_is_skeleton : forall (l : ldesc), loop_ok l = true ->
+  forall (W B D : Type) (solve : nat -> W -> B) (reweight : nat -> B -> W -> W * bool)
+         (diff : nat -> W -> W -> B -> D) (below : D -> bool) (max_iter : Z) (w0 : W),
+  (l_early l = false -> forall k b w, snd (reweight k b w) = false) ->
+  pyloop W B D solve reweight diff below l max_iter w0 =
+  match loop W B D solve reweight diff below (budget l max_iter) w0 with
+  | None => None
+  | Some r => Some (r_base r, r_state r, map Some (r_hist r), r_reason r)
+  end.
+Proof. intros l Hok W B D solve reweight diff below m w0 He. exact (pyloop_refines W B D solve reweight diff below l m Hok He w0). Qed.
+Print Assumptions C01_source_loop_is_skeleton.
+
+(* hence, for every method in the generated table: at most max_iter + 1 entries, all of them written *)
+Theorem C01_source_record_bound : forall name l, In (name, l) loops ->
+  forall (W B D : Type) (solve : nat -> W -> B) (reweight : nat -> B -> W -> W * bool)
+         (diff : nat -> W -> W -> B -> D) (below : D -> bool) (max_iter : Z) (w0 : W) b w hist rsn,
+  (l_early l = false -> forall k b w, snd (reweight k b w) = false) ->
+  (0 <= max_iter + 1)%Z ->
+  pyloop W B D solve reweight diff below l max_iter w0 = Some (b, w, hist, rsn) ->
+  (Z.of_nat (length hist) <= max_iter + 1)%Z /\ Forall (fun e => e <> None) hist.
+Proof.
+  intros name l Hin W B D solve reweight diff below m w0 b w hist rsn He Hm Hp.
+  destruct C01_source_loops_checked as [Hall _].
+  rewrite forallb_forall in Hall. specialize (Hall _ Hin). cbn [snd] in Hall.
+  apply andb_prop in Hall. destruct Hall as [Hok Hb].
+  exact (pyloop_at_most_max_iter_plus_1 W B D solve reweight diff below l m Hok He w0 b w hist rsn Hb Hm Hp).
+Qed.
+Print Assumptions C01_source_record_bound.
+
+(* an empty range (max_iter too small) raises (UnboundLocalError), it never returns a default *)
+Theorem C01_source_empty_range : forall (l : ldesc) (W B D : Type) solve reweight diff below (max_iter : Z) (w0 : W),
+  (max_iter + l_stop l - l_start l <= 0)%Z ->
+  pyloop W B D solve reweight diff below l max_iter w0 = None.
+Proof. intros l W B D solve reweight diff below m w0 H. exact (pyloop_empty_range W B D solve reweight diff below l m w0 H). Qed.
+Print Assumptions C01_source_empty_range.
+
+From Coq Require Import String.
+Example C01_source_loops_nonvacuous :
+  In ("whittaker.airpls"%string, {| l_start := 1; l_stop := 2; l_alloc := 1; l_store := -1; l_slice := 0; l_early := true; l_decr := 1 |}) loops
+  /\ pyloop nat nat nat (fun i w => (w + i)%nat) (fun i b w => (b, false)) (fun i w w' b => (10 - i)%nat) (fun d => Nat.ltb d 9)
+        {| l_start := 1; l_stop := 2; l_alloc := 1; l_store := -1; l_slice := 0; l_early := true; l_decr := 1 |} 4%Z 0%nat
+      = Some (3, 1, [Some 10; Some 9; Some 8], Converged)%nat.
+Proof. split; [unfold loops; repeat (try (left; reflexivity); right) | vm_compute; reflexivity]. Qed.
 
 Open Scope Z_scope.
 (* 1-D wrapper: accepted shapes are exactly (N,), (N,1), (1,N) and all come back as (N,) *)
